@@ -180,17 +180,27 @@ def rule_c18_r3(model: Model) -> RuleResult:
     inz = Normalizer(model, inner, icfg, param_map={p: f'${p}' for p in inner.params})
     r.instances += 1
     r.analysed.add(inner.qualname)
-    lits = sorted(('' if p else 'not ') + a for n in icfg.nodes if n.kind == 'cond' for (a, p) in [inz.literal(n.ast, n)])
-    rets = sorted(inz.expr(n.ast.value, n) for n in icfg.live_nodes() if n.kind == 'return' and n.ast is not None and n.ast.value is not None)
-    r.sample({'mapping handler': lits, 'returns': rets})
-    if lits == ['$ty in $handlers', 'not TRUTHY($args)'] or lits == ['$ty in FREE:conv_map', 'not TRUTHY($args)'] or \
-            (any(' in ' in x for x in lits) and any('TRUTHY($args)' in x and x.startswith('not ') for x in lits) and len(lits) == 2):
-        if 'builtins.NotImplemented' in rets and len(rets) == 2:
+    rets = [(n, inz.expr(n.ast.value, n)) for n in icfg.live_nodes() if n.kind == 'return' and n.ast is not None and n.ast.value is not None]
+    hits = [(n, x) for (n, x) in rets if x != 'builtins.NotImplemented']
+    r.sample({'mapping handler returns': [x for _n, x in rets]})
+    if len(hits) != 1 or len(rets) < 2:
+        r.fail(inner.qualname, f"returns {[x for _n, x in rets]}", inner.loc(), "a mapping-form handler must answer NotImplemented for every type it does not list")
+    else:
+        hn = hits[0][0]
+        lits = set()
+        for a in icfg.nodes:
+            if a.kind == 'cond':
+                for lb in ('T', 'F'):
+                    if a.edge(lb) and icfg.edge_dominates(a, lb, hn):
+                        text, pos = inz.literal(a.ast, a)
+                        lits.add(('' if pos == (lb == 'T') else 'not ') + text)
+        member = any(re.match(r'^\$ty in ', x) for x in lits)
+        bare = 'not TRUTHY($args)' in lits
+        if member and bare and len(lits) == 2:
             r.ok()
         else:
-            r.fail(inner.qualname, f"returns {rets}", inner.loc(), "a mapping-form handler must answer NotImplemented for every other type")
-    else:
-        r.fail(inner.qualname, f"matches when {lits}", inner.loc(), "a mapping-form handler must match only the exact, unparameterised type")
+            r.fail(inner.qualname, f"matches when {sorted(lits)}", inner.loc(hn.ast),
+                   "a mapping-form handler must match only the exact, unparameterised type (ty in mapping and no type arguments)")
     return r
 
 
@@ -379,23 +389,65 @@ def rule_c19_r2(model: Model) -> RuleResult:
     return r
 
 
+def possible_objects(model: Model, f: FuncInfo, e: ast.AST, node: Node, depth: int = 0) -> t.Set[str]:
+    """Qualified names an expression may denote, following local imports / assignments and the returns of
+    zero-argument helper functions of the package."""
+    from ..model import import_bindings
+    if depth > 4:
+        return {'?'}
+    cfg = cfg_of(model, f)
+    rd = cfg.reaching()
+    if isinstance(e, ast.Name) and rd.is_local(e.id):
+        out: t.Set[str] = set()
+        for d in rd.at(node, e.id):
+            if d.kind == 'import' and isinstance(d.stmt, (ast.Import, ast.ImportFrom)):
+                out.add(import_bindings(d.stmt, f.module.name).get(e.id, '?'))
+            elif d.kind == 'assign' and d.value is not None and not d.path:
+                out |= possible_objects(model, f, d.value, d.node, depth + 1)
+            else:
+                out.add('?')
+        return out or {'?'}
+    if isinstance(e, ast.Call) and not e.args and not e.keywords:
+        q = model.resolve(e.func, f.module, f)
+        g = model.functions.get(q or '')
+        if g is not None and isinstance(g.node, ast.FunctionDef):
+            gcfg = cfg_of(model, g)
+            out = set()
+            for n in gcfg.live_nodes():
+                if n.kind == 'return' and n.ast is not None and n.ast.value is not None:
+                    out |= possible_objects(model, g, n.ast.value, n, depth + 1)
+            return out or {'?'}
+    q = model.resolve(e, f.module, f)
+    return {q} if q else {'?'}
+
+
 def rule_c19_r3(model: Model) -> RuleResult:
     r = RuleResult('C19-R3', 'readers and writers pair up: safe loader / dumper, one converted value per YAML document', floor=5)
-    for fq in ('pane.io.from_yaml', 'pane.io.from_yaml_all'):
+    for (fq, fn_name, safe) in (('pane.io.from_yaml', 'yaml.load', {'yaml.CSafeLoader', 'yaml.SafeLoader'}),
+                                ('pane.io.from_yaml_all', 'yaml.load_all', {'yaml.CSafeLoader', 'yaml.SafeLoader'}),
+                                ('pane.io.write_yaml', 'yaml.dump', {'yaml.CSafeDumper', 'yaml.SafeDumper'})):
         f = model.func(fq)
+        cfg = cfg_of(model, f)
         r.instances += 1
-        src = unparse(f.node)
-        if re.search(r'from yaml import CSafeLoader as Loader', src) and re.search(r'from yaml import SafeLoader as Loader', src):
+        r.analysed.add(fq)
+        found = None
+        for n in cfg.live_nodes():
+            for root in node_exprs(n):
+                for c in walk_no_nested(root):
+                    if isinstance(c, ast.Call) and unparse(c.func) == fn_name:
+                        arg = None
+                        if fn_name == 'yaml.dump':
+                            arg = next((k.value for k in c.keywords if k.arg == 'Dumper'), None)
+                        else:
+                            arg = c.args[1] if len(c.args) > 1 else next((k.value for k in c.keywords if k.arg == 'Loader'), None)
+                        found = possible_objects(model, f, arg, n) if arg is not None else set()
+        r.sample({fq: sorted(found) if found is not None else None})
+        if found and found <= safe and any('Safe' in x and not x.split('.')[-1].startswith('C') for x in found):
             r.ok()
         else:
-            r.fail(fq, 'loader', f.loc(), "YAML is not read with the safe loader (C implementation with pure-python fallback)")
-    f = model.func('pane.io.write_yaml')
-    r.instances += 1
-    src = unparse(f.node)
-    if re.search(r'from yaml import CSafeDumper as Dumper', src) and re.search(r'from yaml import SafeDumper as Dumper', src) and 'Dumper=Dumper' in src:
-        r.ok()
-    else:
-        r.fail(f.qualname, 'dumper', f.loc(), "YAML is not written with the safe dumper matching the safe loader")
+            r.fail(fq, f"{fn_name} with {sorted(found) if found is not None else 'no call'}", f.loc(),
+                   "YAML is not read / written with the safe loader / dumper (C implementation with the pure-python fallback): "
+                   "what one side emits the other may not accept")
     f = model.func('pane.io.from_yaml_all')
     cfg = cfg_of(model, f)
     nz = Normalizer(model, f, cfg, param_map=_pm(f))
